@@ -27,6 +27,15 @@ CHECKS = {
  "C11": dict(cat="model_checking", tech="stateless model checking of the real stores under a controlled cooperative scheduler (sync and pebble replaced by yielding shims through a generated overlay), iterative preemption bounding, differential oracle against sequential runs on frozen committed states; separate free-running -race pass",
    text="All interleavings (up to a preemption bound; unbounded for 1 reader x 1 writer in the thorough tier) of scan calls with writers that flip, delete/re-add, rebuild, reconfigure and mark signatures are executed on the real code; each reader result must equal the same call run alone on a store frozen in a committed state that existed during the call, and the final store must be index-consistent and equal to a serial order of the writer operations. Every trace is an implementation run. The data-race clause is covered by a free-running race-detector pass of the same bodies (sampling, labelled as such).",
    note="Trusted: Pebble's per-call linearizability and snapshot isolation; scheduling points only at synchronisation and database operations (unsynchronised accesses are the race pass's job).", ref="3/C11"),
+ "C02": dict(cat="exploration", tech="bounded-exhaustive program family: 50 base functions x refactoring catalogue applied by AST rewriting at every site, at all sites, in every ordered pair and all together; native execution proves each refactoring behaviour-neutral; fingerprint equality on the real fingerprinter and sfw diff status",
+   text="Every applicable site of every catalogue refactoring (and every pairwise composition of whole-function refactorings) on every base function is fingerprinted with the real code under both literal policies and compared with the original; each variant is first compiled and executed on 576 inputs to prove it really is behaviour-neutral. Exhaustive over family x catalogue; nothing is sampled.",
+   note="Trusted: the native Go toolchain as ground truth; the naming convention that decides where R6/R7 apply (every variant is type-checked and natively validated).", ref="3/C02"),
+ "C03": dict(cat="exploration", tech="bounded-exhaustive program family x behaviour-changing edit catalogue at every site (mutation operators + hand-written invalid refactorings); native execution on 576 inputs establishes that the pair differs; fingerprints from the real fingerprinter under both policies must differ",
+   text="Every site of every edit operator on every base function yields a pair (P,Q); both are executed natively and, whenever some input distinguishes them, their fingerprints (taken together with nested function literals) must differ with all literals kept and under the default policy. The antecedent is observed, never inferred.",
+   note="Trusted: native execution; fuel-limited loops (exhaustion drops the pair, counted).", ref="3/C03"),
+ "C04": dict(cat="exploration", tech="the C03 pairs batched into old/new files and run through the real cli.ComputeDiff (fingerprint short-circuit + zipper); identical separately-compiled copies; pair beyond the block-count guard",
+   text="For every natively distinguished pair the diff status must not be preserved; every function that is an identical copy in a round must be preserved with nothing added or removed; an oversized pair differing in one constant must not be preserved.",
+   note="Trusted: as C03.", ref="3/C04"),
 }
 NOT_YET = {}
 ALL = ["C%02d" % i for i in range(1, 21)]
